@@ -176,6 +176,20 @@ def run_one(item, extra):
         r = check(scn, seed)
         r.setdefault("probes", {})["reused-execution-name"] = 1
         return r
+    if isinstance(item, tuple) and item[0] == "outlives":
+        # executions that last about as long as / longer than execution_ttl: on Redis the stored record expires under the
+        # running execution and is re-created when it ends - every surface must then still tell the same end
+        from checks import c02
+        seed, scn = c02.make_long(item[1])
+        r = check(scn, seed)
+        # once the record has expired its content is gone by design (a re-created record knows the ARN only), so the
+        # rules that compare contents do not apply; what still must hold: whatever record exists is never BEHIND the
+        # notifications (RUNNING after the terminal notification), is whole, and every status change is announced once
+        keep = ("record-behind-notification", "torn-record", "status-change-published-twice", "status-change-order",
+                "notification-subject", "notification-shape", "notification-units", "engine-exception")
+        r["findings"] = [f for f in r["findings"] if f["rule"] in keep]
+        r.setdefault("probes", {})["outlives-ttl:" + scn["config"]["store"]] = 1
+        return r
     if isinstance(item, tuple) and item[0] == "child":
         seed, scn, label = make_children(item[1])
         r = check(scn, seed)
@@ -227,6 +241,7 @@ def main(argv):
     items = list(range(n)) + [("rare", k) for k in range(260 if tier == "quick" else 13000)]
     items += [("reused", k) for k in range(120 if tier == "quick" else 6000)]
     items += [("child", k) for k in range(300 if tier == "quick" else 12000)]
+    items += [("outlives", k) for k in range(250 if tier == "quick" else 10000)]
     for r in common.run_batch("checks.c11", "run_one", items, {"tier": tier}):
         rep.absorb(r)
     return rep.finish(
@@ -244,7 +259,9 @@ def main(argv):
              "failure, Succeed with OutputPath) through the same rules; a third slice runs the same execution name again after "
              "the earlier run under it ended (FAILED or SUCCEEDED first), a fourth one parents that launch child executions "
              "in every form (the child's record, notifications and history are surfaces too); some machines carry a "
-             "loggingConfiguration (ALL / ERROR / FATAL / OFF, with and without includeExecutionData); distinct = distinct (scenario, interleaving) hashes",
+             "loggingConfiguration (ALL / ERROR / FATAL / OFF, with and without includeExecutionData); a fifth slice runs executions "
+             "that outlive execution_ttl (the Redis record expires under them): there only 'a stored record is never behind "
+             "the notifications', wholeness and once-per-status-change are judged; distinct = distinct (scenario, interleaving) hashes",
         assumptions=["fault-free runs (crash/restart duplicates are C04's subject)",
                      "file-backed configurations use one instance (a file store is not shared between instances)",
                      "pre-emption is placed at I/O boundaries (Redis commands, broker operations), not between bytecodes"])
